@@ -463,20 +463,38 @@ class C10(Suite):
         yield from self.lib_cases(rng, quick)
 
     def src_cases(self, rng, n):
-        for _ in range(n):
+        for k in range(n):
+            init = bytes(rng.randint(0, 9) for _ in range(rng.choice([0, 1, 2, 4])))
+            mem = k % 3 == 0      # a `rememberable` source (as the server uses): forget() allowed, pushes give back
+            q, taken = list(init), []      # what was taken last (its push() asserts exactly that)
             ops = []
             for _ in range(rng.randint(0, 14)):
                 x = rng.random()
-                if x < 0.4:
+                if mem and x < 0.12:
+                    ops.append("f")     # forget(): drops the memory only; must not touch `sent`
+                    taken = []
+                elif x < 0.4:
                     ops.append("n")
+                    if q:
+                        taken.append(q.pop(0))
                 elif x < 0.6:
                     ops.append("k")
                 elif x < 0.8:
-                    ops.append("u%d" % rng.randint(0, 9))
+                    if mem:
+                        if not taken:
+                            continue
+                        v = taken.pop()
+                        q.insert(0, v)
+                        ops.append("u%d" % v)
+                    else:
+                        v = rng.randint(0, 9)
+                        q.insert(0, v)
+                        ops.append("u%d" % v)
                 else:
-                    ops.append("c" + hexs(bytes(rng.randint(0, 9) for _ in range(rng.choice([0, 0, 1, 2, 3])))))
-            yield {"op": "src", "init": bytes(rng.randint(0, 9) for _ in range(rng.choice([0, 1, 2, 4]))).hex(),
-                   "ops": ops}
+                    blk = bytes(rng.randint(0, 9) for _ in range(rng.choice([0, 0, 1, 2, 3])))
+                    q.extend(blk)
+                    ops.append("c" + hexs(blk))
+            yield {"op": "src", "init": init.hex(), "ops": ops, "mem": mem}
 
     def grid_cases(self, rng, quick):
         """exhaustive small scope: outer[ limited/repeated dfa over a shape, then a tail consumer ]"""
@@ -696,7 +714,8 @@ class C10(Suite):
     # ---------------------------------------------------------------------------------------- lines
     def model_line(self, c):
         if c["op"] == "src":
-            return "src %s %s" % (hexs(bytes.fromhex(c["init"])), ",".join(c["ops"]) or "-")
+            # `forget` is a no-op in the Source model (it has no memory): not sent to the driver
+            return "src %s %s" % (hexs(bytes.fromhex(c["init"])), ",".join(o for o in c["ops"] if o != "f") or "-")
         if c["op"] == "eng":
             return eng_line(c["states"], c["top"], c["chunks"], [])
         if c["op"] == "lib":
@@ -718,10 +737,12 @@ class C10(Suite):
 
     def impl_src(self, c):
         import cpppo
-        s = cpppo.chainable(bytes.fromhex(c["init"]))
+        s = (cpppo.rememberable if c.get("mem") else cpppo.chainable)(bytes.fromhex(c["init"]))
         res = []
         for op in c["ops"]:
-            if op == "n":
+            if op == "f":
+                s.forget()
+            elif op == "n":
                 try:
                     res.append(str(next(s)))
                 except StopIteration:
@@ -794,7 +815,7 @@ class C10(Suite):
         res = [] if res == "e" else res.split(",")
         q = list(bytes.fromhex(c["init"]))
         n = 0
-        for op, r in zip(c["ops"], res):
+        for op, r in zip([o for o in c["ops"] if o != "f"], res):
             if op == "n":
                 want = str(q.pop(0)) if q else "-"
                 n += 1 if want != "-" else 0
